@@ -19,12 +19,6 @@ pub struct Item<'a> {
     pub total_len: usize,
 }
 
-impl<'a> Item<'a> {
-    pub fn header_len(&self) -> usize {
-        self.total_len - self.payload.len()
-    }
-}
-
 /// Parse the first item of `buf` (shallow: the payload of a list is not inspected).
 pub fn parse_item(buf: &[u8]) -> Result<Item<'_>, RlpErr> {
     let b = *buf.first().ok_or(RlpErr::Empty)?;
